@@ -215,9 +215,16 @@ class Validator:
             d = rootdict
             key = d["__type__"]
         elif isinstance(path[-1], int):
-            # the error is on an object in a list
             d = dictutils.findkey(rootdict, *path)
-            key = d["__type__"]
+            if isinstance(d, dict):
+                # the error is on an object in a list
+                key = d["__type__"]
+            else:
+                # the error is on an item of a list-valued keyword e.g. SIZE 10.5 20
+                while isinstance(path[-1], int):
+                    path = path[:-1]
+                key = path[-1]
+                d = dictutils.findkey(rootdict, *path[:-1])
         else:
             key = path[-1]
             d = dictutils.findkey(rootdict, *path[:-1])
